@@ -120,19 +120,8 @@ KindsOK(pre, post) ==
 SP(st) == [store |-> st.store, props |-> st.props]
 SameSP(a, st) == Proj(a).store = st.store /\ Proj(a).props = st.props
 
-\* equality of what the request was allowed to touch
-EffectMatches(ev, o, pre, post) ==
-    CASE ev.op = "Mk" ->
-           /\ Proj(post).store = o.st.store
-           /\ post.colls[ev.c].kind = ev.kind
-           \* C15: every property the creation request reports as set reads back
-           /\ \A k \in DOMAIN ev.mprops :
-                 ev.mprops[k].pst = 200 =>
-                    /\ ev.mprops[k].p \in DOMAIN post.colls[ev.c].props
-                    /\ post.colls[ev.c].props[ev.mprops[k].p] = ev.mprops[k].v
-           /\ \A c \in Colls(pre) : post.colls[c].props = pre.colls[c].props
-           /\ KindsOK(pre, post)
-      [] ev.op = "Proppatch" ->
+\* effect of a PROPPATCH; values whose class is in freecls are not judged for read-back
+PropEffect(ev, pre, post, freecls) ==
            \* document order: the last performed instruction on a property decides; after a
            \* removal the property may read as a default; nothing else moves
            LET ins == InsOK(ev)
@@ -145,11 +134,25 @@ EffectMatches(ev, o, pre, post) ==
                  \A p \in (DOMAIN pre.colls[c].props \cup DOMAIN post.colls[c].props
                           \cup (IF c = ev.c THEN touched ELSE {})) :
                     IF c = ev.c /\ p \in touched
-                      THEN (ins[LastIns(p)].set /\ ~ins[LastIns(p)].free) =>
+                      THEN (ins[LastIns(p)].set /\ ~ins[LastIns(p)].free /\ ins[LastIns(p)].vcls \notin freecls) =>
                               /\ p \in DOMAIN post.colls[c].props
                               /\ post.colls[c].props[p] = ins[LastIns(p)].v
                       ELSE /\ p \in DOMAIN pre.colls[c].props /\ p \in DOMAIN post.colls[c].props
                            /\ pre.colls[c].props[p] = post.colls[c].props[p]
+
+\* equality of what the request was allowed to touch
+EffectMatches(ev, o, pre, post) ==
+    CASE ev.op = "Mk" ->
+           /\ Proj(post).store = o.st.store
+           /\ post.colls[ev.c].kind = ev.kind
+           \* C15: every property the creation request reports as set reads back
+           /\ \A k \in DOMAIN ev.mprops :
+                 ev.mprops[k].pst = 200 =>
+                    /\ ev.mprops[k].p \in DOMAIN post.colls[ev.c].props
+                    /\ post.colls[ev.c].props[ev.mprops[k].p] = ev.mprops[k].v
+           /\ \A c \in Colls(pre) : post.colls[c].props = pre.colls[c].props
+           /\ KindsOK(pre, post)
+      [] ev.op = "Proppatch" -> PropEffect(ev, pre, post, {})
       [] ev.op = "Restart" ->
            \* exactly the missing default collections appear, empty and of their kind (their
            \* display name reads as a default); every existing collection is as before
@@ -498,7 +501,15 @@ JudgeReupload(ev, pre, post, i) ==
     \cup (IF ~a.git.skipped /\ a.git.log # b.git.log THEN Viol("C14", [w |-> "reupload-made-a-commit"], i) ELSE {})
 
 ----------------------------------------------------------------------------
-INSTANCE DavDeviations
+\* Known findings of this cluster (DESIGN 2.5): a wrong-effect verdict on a PROPPATCH that is
+\* explained *exactly* by the read-back of values of one class (everything else about the
+\* request is as the specification demands)
+LossyClasses == {"comment-line", "indented-line"}
+DevFor(v, ev, pre, post, cfg) ==
+    IF v.w = "wrong-effect" /\ ev.op = "Proppatch"
+       /\ \E cls \in LossyClasses : PropEffect(ev, pre, post, {cls})
+      THEN "dav:C15:multi-line-value:" \o (CHOOSE cls \in LossyClasses : PropEffect(ev, pre, post, {cls}))
+      ELSE ""
 
 Judge(ev, pre, post, i) ==
     LET raw == JudgeEffect(ev, pre, post, i) \cup JudgeFrame(ev, pre, post, i)
